@@ -114,7 +114,17 @@ def c13b(F):
             okk = bool(args) and all(any((fold(x) or 0) & O_NONBLOCK for x in or_terms(e)) for e in args)
             res.append((okk, "setfl-nonblock@%s" % keyname(m0.name), "fcntl(F_SETFL) argument contains the O_NONBLOCK constant",
                         t["sp"], {"flags": [show(e) for e in args]}))
-        clos = closure_constructions(m)
+        # the action: the closure value handed to the registry (other closures — arguments of std adapters — are not it)
+        action_defs = set()
+        for rb, rt in m.calls():
+            if rt.get("f") is not None and F.inst[rt["f"]].defp.startswith("signal_hook_registry::register"):
+                for e in fl.term_arg(rb, 1):
+                    e = deep_strip(e)
+                    if e[0] == "agg" and e[1][0] == "closure":
+                        action_defs.add(e[1][1])
+        clos = [(cb, csi, crv) for (cb, csi, crv) in closure_constructions(m) if crv["def"] in action_defs]
+        if not clos:
+            raise AnchorLost("the action closure registered by %s" % m0.name)
         for (bb, si, rv) in adt_constructions(m, WAKEFD):
             if m.blocks[bb].get("dead"):
                 continue
@@ -158,23 +168,37 @@ def c13b(F):
                             m.blocks[bb]["s"][si]["sp"], {"passes_setfl": through, "setfl_calls": len(sf), "result": leak}))
     if n_sites < 1 or n_setfl < 1:
         raise AnchorLost("expected WakeFd construction(s) and an F_SETFL call in the registering entry point, found %d / %d" % (n_sites, n_setfl))
-    # every caller of the wake primitive passes either the constant Send or the `method` field of a WakeFd
-    w = wake_fn(F)
-    for (cid, k, bb) in F.callers().get(w.id, []):
-        ci = F.inst[cid]
-        if ci.body is None or k != "call":
-            continue
-        t = ci.term(bb)
-        for ai, a in enumerate(t["args"]):
-            ex = flow(ci).term_arg(bb, ai)
-            for e in ex:
-                e = deep_strip(e)
-                if e[0] == "agg" and e[1][0] == "adt" and e[1][1].endswith("WakeMethod"):
-                    res.append((e[1][2] == "Send", "wake-caller@%s" % keyname(ci.name),
-                                "caller passes the constant send method", t["sp"], {"method": show(e)}))
-                elif e[0] == "field" and e[2] == mef:
-                    res.append((WAKEFD in (e[4] or ""), "wake-caller@%s" % keyname(ci.name),
-                                "caller passes the method recorded in its WakeFd", t["sp"], {"method": show(e)}))
+    # a plain write() in the wake path happens only under a method value that is the `method` recorded in a WakeFd (the O_NONBLOCK switch above
+    # vouches for those); frames that receive the method as a parameter are checked at their callers
+    frames = wake_frames(F)
+    mparams = {}
+    for m, n in frames:
+        for (bb, t, ci) in call_sites(F, n, lambda ci: ci.kind == "foreign" and ci.symbol == "write"):
+            fdv = [fold(e) for e in flow(n).term_arg(bb, 0)]
+            if fdv and all(v == 2 for v in fdv):
+                continue
+            ctl = []
+            for (ce, inf, sb) in __import__("engine.conds", fromlist=["facts_at"]).facts_at(n, bb):
+                if ce[0] == "discr":
+                    base = deep_strip(ce[1])
+                    while base[0] in ("ref", "deref"):
+                        base = deep_strip(base[1])
+                    ctl.append(base)
+            good = [b_ for b_ in ctl if (b_[0] == "field" and b_[2] == mef and WAKEFD in (b_[4] or "")) or b_[0] == "param"]
+            res.append((bool(good), "write-under-recorded-method@%s" % keyname(m.name), "write() in the wake path is selected by the method recorded in the WakeFd", t["sp"],
+                        {"controlling_values": [show(b_) for b_ in ctl]}))
+            for b_ in good:
+                if b_[0] == "param":
+                    mparams.setdefault(m.id, set()).add(b_[1])
+    for m, n in frames:
+        for bb, t in n.calls():
+            if t.get("f") in mparams and t["f"] != m.id:
+                for k in mparams[t["f"]]:
+                    ex = [deep_strip(e) for e in flow(n).term_arg(bb, k - 1)]
+                    okm = bool(ex) and all((e[0] == "agg" and e[1][0] == "adt" and e[1][2] == "Send") or (e[0] == "const" and e[4] == "Send") or
+                                           (e[0] == "field" and e[2] == mef and WAKEFD in (e[4] or "")) or (e[0] == "param" and m.kind != "closure") for e in ex)
+                    res.append((okm, "wake-caller@%s" % keyname(m.name), "caller passes the constant send method or the method recorded in its WakeFd", t["sp"],
+                                {"method": [show(e) for e in ex]}))
     _b_cache[id(F)] = res
     return res
 
@@ -254,7 +278,7 @@ def rule_a(ctx):
 def rule_b(ctx):
     rid = "C13.b"
     ctx.rule(rid, "a WakeFd using write() reaches the action closure only through a successful set_flags whose F_SETFL "
-                  "argument contains O_NONBLOCK; callers of the primitive pass Send or the recorded method", floor=5)
+                  "argument contains O_NONBLOCK; callers of the primitive pass Send or the recorded method", floor=3)
     for (okk, key, what, where, detail) in c13b(ctx.F):
         ctx.check(okk, rid, key, what, where, detail)
 
@@ -311,37 +335,76 @@ def rule_c(ctx):
                   rr.term(bb)["sp"], "a path to return neither moves nor drops the WakeFd")
 
 
+def wake_frames(F):
+    """frames of the dispatch cone in which a wake is visible after normalisation: the action closures and every workspace function that
+    stays a call in normal forms (trait-object methods, `pipe::wake`, ..) — each with its normal form. [(frame, normal form)]"""
+    from .nf import NF, keep_for
+    cone = dispatch_cone(F)
+    roots = {(r.id if hasattr(r, "id") else r) for r in cone.roots}
+    out = []
+    for m in cone.members:
+        if not (m.local and m.body is not None) or is_user_code(m) or m.crate != "signal_hook":
+            continue
+        if m.id in roots or keep_for(F, m)(m):
+            out.append((m, NF(F, m)))
+    return out
+
+
+def fd_param_of(F, n):
+    """parameter numbers of a normal form that reach the descriptor argument of a one-byte write/send: {param}"""
+    out = set()
+    for (bb, t, ci) in call_sites(F, n, lambda ci: ci.kind == "foreign" and ci.symbol in ("write", "send")):
+        for e in flow(n).term_arg(bb, 0):
+            e = deep_strip(e)
+            if e[0] == "param":
+                out.add(e[1])
+    return out
+
+
 def rule_d(ctx):
-    """never written to after close: the descriptor handed to the wake primitive is obtained, at wake time, from an owner the action itself keeps
-    alive (as_raw_fd() on a captured owning object, or the fd field of the captured WakeFd) — not a bare number captured at registration"""
+    """never written to after close: the descriptor a wake writes to is obtained, at wake time, from an owner the action itself keeps
+    alive (as_raw_fd() on a captured owning object, or the descriptor field of the captured WakeFd) — not a bare number captured at registration"""
     F = ctx.F
     rid = "C13.d"
-    ctx.rule(rid, "every descriptor passed to the wake primitive in the dispatch cone comes from an owner captured by the action (AsRawFd::as_raw_fd "
-                  "of a captured object / the WakeFd's fd field); a raw integer captured at registration time is refused", floor=2)
-    w = wake_fn(F)
-    cone = dispatch_cone(F)
-    n = 0
-    for (cid, k, bb) in F.callers().get(w.id, []):
-        c = F.inst[cid]
-        if c.body is None or k != "call" or cid not in cone.parent:
-            continue
-        n += 1
-        ctx.fn(c)
-        ex = [deep_strip(e) for e in flow(c).term_arg(bb, 0)]
-        okk = True; how = []
-        for e in ex:
-            x = e
-            if x[0] == "call" and ((x[3] or "").endswith("AsRawFd::as_raw_fd") or _returns_live_fd(F, c, x)):
-                how.append("as_raw_fd() at wake time"); continue
-            if x[0] == "field" and x[2] == wakefd_fields(F)[0] and WAKEFD in (x[4] or ""):
-                how.append("WakeFd's descriptor field"); continue
-            if x[0] == "param":
-                how.append("parameter (checked at the caller)"); continue
-            okk = False; how.append("captured/raw value: " + show(x))
-        ctx.check(okk, rid, "fd-from-owner@%s" % keyname(c.name), "%s passes a descriptor obtained from a live owner" % c.name.split("::")[-1][:60], c.term(bb)["sp"],
-                  {"fd": how, "why": "the owner may be closed (and the number reused) while the action is still registered"})
-    if n < 2:
-        raise AnchorLost("callers of the wake primitive in the dispatch cone: %d" % n)
+    ctx.rule(rid, "every descriptor reaching write()/send() in the dispatch cone comes from an owner captured by the action (AsRawFd::as_raw_fd "
+                  "of a captured object / the WakeFd's descriptor field), judged in the normal form of every frame that stays visible; a raw integer "
+                  "captured at registration time is refused", floor=2)
+    fdf, mef = wakefd_fields(F)
+    frames = wake_frames(F)
+    pmap = {m.id: fd_param_of(F, n) for m, n in frames}
+    n_sites = 0
+    for m, n in frames:
+        fl = flow(n)
+        uses = []
+        for (bb, t, ci) in call_sites(F, n, lambda ci: ci.kind == "foreign" and ci.symbol in ("write", "send")):
+            # the message-before-abort write(2, ..) is not a wake
+            fdv = [fold(e) for e in fl.term_arg(bb, 0)]
+            if fdv and all(v == 2 for v in fdv):
+                continue
+            uses.append((bb, t, 0))
+        for bb, t in n.calls():
+            if t.get("f") in pmap and pmap[t["f"]] and t["f"] != m.id:
+                for k in pmap[t["f"]]:
+                    uses.append((bb, t, k - 1))
+        for (bb, t, ai) in uses:
+            n_sites += 1
+            ctx.fn(m)
+            ex = [deep_strip(e) for e in fl.term_arg(bb, ai)]
+            okk = bool(ex); how = []
+            for x in ex:
+                while x[0] == "cast":
+                    x = deep_strip(x[1])
+                if x[0] == "call" and ((x[3] or "").endswith("AsRawFd::as_raw_fd") or _returns_live_fd(F, n, x)):
+                    how.append("as_raw_fd() at wake time"); continue
+                if x[0] == "field" and x[2] == fdf and WAKEFD in (x[4] or ""):
+                    how.append("WakeFd's descriptor field"); continue
+                if x[0] == "param" and m.kind != "closure":
+                    how.append("parameter (checked at the callers)"); continue
+                okk = False; how.append("captured/raw value: " + show(x))
+            ctx.check(okk, rid, "fd-from-owner@%s" % keyname(m.name), "%s passes a descriptor obtained from a live owner" % m.name.split("::")[-1][:60], t["sp"],
+                      {"fd": how, "why": "the owner may be closed (and the number reused) while the action is still registered"})
+    if n_sites < 2:
+        raise AnchorLost("descriptor uses of the wake path in the dispatch cone: %d" % n_sites)
 
 
 def _returns_live_fd(F, c, x):
